@@ -163,8 +163,11 @@ struct PeerConn {
     // After the handshake a real peer reads and writes concurrently. The scripted peer does the same:
     // a reader fiber of its process drains the socket into an inbox, so that a blocking send can never
     // deadlock against the node's own blocking reply.
-    struct Rx { std::deque<std::vector<std::uint8_t>> frames; std::deque<std::int64_t> times; bool closed = false; std::string error; };
+    // `deaf` stops the reader fiber before its next recv (a hostile peer that asks for data and does not drain its socket);
+    // `drip_bytes`/`drip_ns` make it a slow reader instead: at most that many bytes per interval.
+    struct Rx { std::deque<std::vector<std::uint8_t>> frames; std::deque<std::int64_t> times; bool closed = false; std::string error; bool deaf = false; std::size_t drip_bytes = 0; std::int64_t drip_ns = 0; };
     std::shared_ptr<Rx> rx;
+    std::shared_ptr<Rx> gate;  // set in the reader fiber's own PeerConn: recv_all consults it before every recv
     std::int64_t timeout_ms = 5000;
 
     bool open(const std::string& host, std::uint16_t port) {
@@ -198,7 +201,13 @@ struct PeerConn {
         auto* b = static_cast<std::uint8_t*>(p);
         std::size_t off = 0;
         while (off < n) {
-            const ssize_t r = ::recv(fd, b + off, n - off, 0);
+            std::size_t want = n - off;
+            if (gate) {
+                auto g = gate;
+                if (g->deaf) sk::wait_until([g] { return !g->deaf; }, 86400 * kSec);
+                if (g->drip_bytes) { sk::sleep_ns(g->drip_ns); want = std::min(want, g->drip_bytes); }
+            }
+            const ssize_t r = ::recv(fd, b + off, want, 0);
             if (r == 0) { last_error = "eof"; return off == 0 ? 0 : -1; }
             if (r < 0) { last_error = "recv errno " + std::to_string(errno); return -1; }
             off += static_cast<std::size_t>(r);
@@ -249,6 +258,7 @@ struct PeerConn {
             PeerConn c;
             c.fd = sock;
             c.key = k;
+            c.gate = state;
             for (;;) {
                 auto f = c.recv_plain_direct();
                 if (!f) { state->closed = true; state->error = c.last_error; return; }
